@@ -95,7 +95,7 @@ impl FuzzCase for c14::C14 {
         let s = gb::areal_scene(u)?;
         let (op, sel, xf) = (u.int_in_range(0..=17u8)?, u.arbitrary::<u64>()?, gb::xf(u)?);
         let nonfinite = if u.int_in_range(0..=11u8)? == 0 { Some((u.arbitrary()?, u.arbitrary()?, u.arbitrary()?, u.int_in_range(0..=2u8)?, u.int_in_range(0..=1u8)?)) } else { None };
-        Ok(s.map(|s| c14::Case { g: c14::mutate_pub(&s.a, op, sel), nonfinite, xf, op }))
+        Ok(s.map(|s| c14::Case { g: c14::mutate_pub(&s.a, op, sel), nonfinite, xf, op, small: None }))
     }
 }
 impl FuzzCase for c03::C03 {
